@@ -11,6 +11,9 @@ CONSTANTS
   MaxFail = 0
   MaxTasks = 14
   StopAllowed = {"R1"}
+  MaxStops = 1
+  ParentCancelAllowed = {}
+  StopWaits = TRUE
 SPECIFICATION Spec
 INVARIANTS TaskBound NoOverlap StopFinal FreshAtQuiescence CleanupAtMostOnce NoCleanupWhileLive CleanupExactlyOnceAtQuiescence TrackerExact
 PROPERTIES StopFinalAct
